@@ -53,6 +53,9 @@ pub struct VictimPlan {
     pub data_latency: u64,
     pub transit_latency_a: u64,
     pub transit_latency_b: u64,
+    /// the victim's tasks are created with spawn_local instead of tokio::spawn
+    #[serde(default)]
+    pub local_tasks: bool,
 }
 
 #[derive(Debug, Clone, Serialize, Deserialize, PartialEq)]
@@ -140,23 +143,34 @@ impl Module for Victim {
         send(Message::default().kind(K_HELLO).id(self.inc as u16), "up");
         let (k, inc, horizon) = (self.k, self.inc, self.horizon);
         let p = self.plan.tick_period;
-        tokio::spawn(async move {
+        let local = self.plan.local_tasks;
+        let ticker = async move {
             while now_ns() + p <= horizon {
                 sleep(Duration::from_nanos(p)).await;
                 log(2 + k, k, inc, Kind::Tick);
             }
-        });
+        };
+        if local {
+            tokio::task::spawn_local(ticker);
+        } else {
+            tokio::spawn(ticker);
+        }
         if now_ns() + self.plan.beat_period <= horizon {
             schedule_in(Message::default().kind(K_BEAT), Duration::from_nanos(self.plan.beat_period));
         }
         for (j, sd) in self.plan.shutdowns.iter().enumerate() {
             if sd.via_task && sd.at > now_ns() {
                 let sd = *sd;
-                tokio::spawn(async move {
+                let killer = async move {
                     sleep_until(st(sd.at)).await;
                     log(2 + k, k, inc, Kind::KillerFired(j));
                     request(sd.restart);
-                });
+                };
+                if local {
+                    tokio::task::spawn_local(killer);
+                } else {
+                    tokio::spawn(killer);
+                }
             }
         }
     }
@@ -675,6 +689,7 @@ pub fn gen_case(rng: &mut Rng, coincide: bool) -> Case {
             data_latency,
             transit_latency_a: ta,
             transit_latency_b: tb,
+            local_tasks: rng.chance(1, 3),
         });
     }
     // two victims sharing the same shutdown / restart instants
@@ -698,7 +713,7 @@ pub fn case_json(case: &Case) -> Value {
 pub fn cmd(args: &Args) -> Report {
     let mut rep = Report::new("C09");
     let mut rng = Rng::new(args.stream_seed("c09"));
-    let cases = args.cases(16_000, 320_000);
+    let cases = args.cases(240_000, 3_200_000);
     for i in 0..cases {
         let coincide = i % 5 == 4;
         let case = gen_case(&mut rng, coincide);
@@ -732,6 +747,7 @@ pub fn cmd(args: &Args) -> Report {
                 }
             }
         }
+        rep.count("victims_with_spawn_local_tasks_shut_down", case.victims.iter().zip(&r.downs).filter(|(v, d)| v.local_tasks && !d.is_empty()).count() as u64);
         rep.count("data_messages_due_while_down", dropped_data as u64);
         rep.count("transit_messages_due_while_down", dropped_transit as u64);
         if coincide {
